@@ -11,6 +11,10 @@ for d in sorted(glob.glob(os.path.join(root, "seeded", pref + "*"))):
     if not os.path.exists(mp):
         continue
     m = json.load(open(mp))
+    if m.get("base"):
+        # written against an older tree and without a trigger on the current one
+        # (see its meta.json): not re-run
+        continue
     props = sorted({k.split("/")[0] for k, v in m.get("checks_run", {}).items() if v.get("exit") == 1})
     t0 = time.time()
     r = subprocess.run([os.path.join(root, "tools", "seedcheck.py"), os.path.join(d, "patch.diff")] + props, capture_output=True, text=True)
